@@ -339,7 +339,7 @@ class Run:
         return res
 
     # ------------------------------------------------------------ solver
-    def check(self, assertions, label="", timeout_ms=30000, want=(), ext_timeout_s=60.0):
+    def check(self, assertions, label="", timeout_ms=30000, want=(), ext_timeout_s=60.0, soft=None):
         """decide satisfiability of a list of terms -> ('sat', Model) | ('unsat', None).
         z3 in-process first; on `unknown` (or, in the thorough tier, to confirm `unsat`) the SMT-LIB text goes to
         cvc5 1.0 and z3 4.8.12; no definite answer -> Inconclusive.  `want`: terms whose values are needed from the model."""
@@ -365,6 +365,10 @@ class Run:
             if ans2 == "sat" and vals is not None:
                 self.stats["sat"] += 1
                 return "sat", Model(None, vals)
+            if soft if soft is not None else label.endswith("witness"):
+                # a witness only feeds engine validation / vacuity sampling: no verdict depends on it
+                self.stats["witness_unknown"] = self.stats.get("witness_unknown", 0) + 1
+                return "unknown", None
             raise Inconclusive(f"solver answered {ans}/{ans2} on query {label}")
         if ans == "unsat" and self.tier == "thorough" and z3.BACKEND == "z3":
             ans2, _ = self.portfolio(so, min(timeout_ms / 1000.0, 20.0), ())
